@@ -8,7 +8,8 @@ def T(shards, checks, **kw):
 PROPS = {
     "C14": {
         "pkg": "hpure", "test": "TestC14", "replay_test": "TestC14_Replay", "level": "exploration",
-        "quick": T(16, 1500), "thorough": T(16, 100000, timeout=5000),
+        "quick": T(16, 0, tests=[{"test": "TestC14", "checks": 1500}, {"test": "TestC14_Service", "checks": 3, "pkg": "hserver"}]),
+        "thorough": T(16, 0, timeout=5000, tests=[{"test": "TestC14", "checks": 100000}, {"test": "TestC14_Service", "checks": 60, "pkg": "hserver"}]),
         "rule": "rapid-generated histories of Receive/ClearMsgs/sleep over 1..3 Packers sharing the global memory budget, thresholds "
                 "(count 1..6, size 1/2/512 KB, age 1 ms/off, memory 1..64 KB) and message sizes drawn around them, callback failing at drawn flushes; "
                 "oracle = per-packer pending-list model (exactly-once, in order, error propagated, forced flush on deterministic thresholds, counter zero when empty). "
@@ -27,7 +28,8 @@ PROPS = {
     },
     "C17": {
         "pkg": "hpure", "test": "TestC17", "replay_test": "TestC17_Replay", "level": "exploration",
-        "quick": T(16, 1500), "thorough": T(16, 100000, timeout=5000),
+        "quick": T(16, 0, tests=[{"test": "TestC14", "checks": 1500}, {"test": "TestC14_Service", "checks": 3, "pkg": "hserver"}]),
+        "thorough": T(16, 0, timeout=5000, tests=[{"test": "TestC14", "checks": 100000}, {"test": "TestC14_Service", "checks": 60, "pkg": "hserver"}]),
         "rule": "rapid state machine over the real ReplicateMeteImpl with a JSON-round-tripping in-memory store: report(task,msg,1..2 shards) / remove / reload over 3 tasks (ids in prefix relation) x 1..3 messages "
                 "(collection and partition kind, 1..4 target shards); oracle after every step: store == memory == model (union of reports), ready iff union == target. "
                 "non-trivial = some message received >= 3 reports, or a reload happened while a message was partially reported; distinct = distinct history",
